@@ -37,7 +37,10 @@ def main(props, only=None, tier="quick") -> int:
         prop = meta["property"]
         if props and prop not in props:
             continue
-        if only and only not in d.name:
+        if only and only.startswith("round="):
+            if int(meta.get("round", 1)) != int(only.split("=")[1]):
+                continue
+        elif only and only not in d.name:
             continue
         checks = meta.get("checks") or [prop]
         scratch = tempfile.mkdtemp(prefix="verif-mut-")
